@@ -16,6 +16,14 @@ Input: `<scenario> => <observation>` of `harness/src/fam_locks.rs`.  Three claus
   produces (the scripted peer's reply is a function of the request alone; table below).
 * `all_complete` — every caller returned before the watchdog.
 
+Reply fault `fault=<k>:<kind>` (the scripted peer mistreats the request of caller `k`: a reply the caller must refuse —
+`code`, `noreply`, `fd` — or `close`: no reply, the peer is gone): the three clauses stay, and "own reply" is read as
+`Spec.Locks.FaultClauses` (judged with `faultClausesB`; `Props.C10.faultClausesB_sound`): the request the peer
+mistreated ⇒ its caller returned an error, never a value (`faulty_is_error`); a request the peer received and
+answered correctly (every other request in `order`) ⇒ the caller's own result; a request that never reached the peer
+(it was gone) ⇒ an error, never a value.  "Never blocks" is `all_complete`.  In fault scenarios results are compared
+up to the kind of error (every `err:*` is `err`).
+
 Which requests have a reply (`expects`) comes from the protocol: reply-bearing requests always,
 other requests iff REPLY_ACK was negotiated and the request carries NEED_REPLY (`ack=1`); the GPU
 channel has replies exactly for GET_PROTOCOL_FEATURES, GET_DISPLAY_INFO, GET_EDID, DMABUF_UPDATE.
@@ -185,10 +193,60 @@ def history (specs : List CallSpec) (snaps : List Snap) (order : List String) (g
     (cur, assigned', tr ++ evs1 ++ evs2)) (init, [], [])
   tr
 
-def judgeSched (ep : String) (ack : Bool) (tags : List String) (obs : List String) : String :=
+/-- every error result is `err` in fault scenarios -/
+def collapse (e : String) : String := if e.startsWith "err" then "err" else e
+
+/-- `<k>:<kind>` with a known kind -/
+def parseFault (f : String) : Option (Nat × String) :=
+  match f.splitOn ":" with
+  | [k, kind] =>
+    if ["code", "noreply", "fd", "close"].contains kind then k.toNat?.map (·, kind) else none
+  | _ => none
+
+/-- the verdict of the fault clauses on the callers' results; `k` = the caller whose request the peer mistreated -/
+def judgeFault (specs : List CallSpec) (order got : List String) (k : Nat) : List String :=
+  let n := specs.length
+  let expects (i : Nat) : Bool := ((specs[i]?).map (·.expects)).getD false
+  let res (i : Nat) : String := collapse (((specs[i]?).map (·.result)).getD "?")
+  let reached (i : Nat) : Bool := order.contains (((specs[i]?).map (·.tag)).getD "?")
+  let faulty (i : Nat) : Bool := i == k
+  let answered (i : Nat) : Bool := i != k && reached i
+  let out (i : Nat) : Outcome :=
+    let g := (got[i]?).getD "none"
+    if g == "none" then .pending
+    else if g == "err" then (if res i == "err" ∧ answered i then .value i else .error)
+    else if g == res i then .value i
+    else match (List.range n).find? fun j => res j == g ∧ expects j with
+      | some j => .value j
+      | none => .value n
+  let faultyOk : Bool := out k == .pending || out k == .error
+  let clausesOk : Bool := faultClausesB n expects faulty answered out
+  -- callers whose request has no reply: their own result if the request reached the peer (or nothing is written at
+  -- all); an error if it did not
+  let plainOk : Bool := (List.range n).all fun i =>
+    expects i || (
+      let g := (got[i]?).getD "none"
+      let writes := ((specs[i]?).map (·.writes)).getD false
+      g == "none" || (if writes ∧ ¬ reached i then g == "err" else g == res i))
+  (if faultyOk then [] else ["faulty_is_error"]) ++
+  (if (clausesOk || !faultyOk) && plainOk then [] else ["own_reply"])
+
+def judgeSched (ep : String) (ack : Bool) (tags : List String) (obs : List String) (fault : Option String) : String :=
   match tags.mapM (specOf ep ack) with
   | none => "bad-scenario"
   | some specs =>
+    let flt : Option (Option (Nat × String)) := fault.map parseFault
+    if flt == some none then "bad-scenario" else
+    let fk : Option (Nat × String) := flt.join
+    let badFault : Bool := match fk with
+      | some (k, kind) =>
+        match specs[k]? with
+        | none => true
+        | some sp => !sp.expects || (specs.filter (·.tag == sp.tag)).length != 1 ||
+            -- an extra descriptor is only a fault where the reply takes none
+            (kind == "fd" && (sp.result == "ok:file" || sp.tag == "sdsf" || sp.tag.startsWith "gif"))
+      | none => false
+    if badFault then "bad-scenario" else
     match kvOf obs "snaps", kvOf obs "order", kvOf obs "got", kvOf obs "done" with
     | some sn, some od, some gt, some dn =>
       match (sn.splitOn ",").mapM parseSnap with
@@ -207,12 +265,15 @@ def judgeSched (ep : String) (ack : Bool) (tags : List String) (obs : List Strin
         let doneOk : Bool := dn.toList.length == n && dn.toList.all (· == '1') && lastOk
         -- callers that returned must have got the result of their own reply; requests that reached the
         -- peer must be requests of the scenario (each caller writes at most one)
-        let ownOk : Bool := (List.range n).all fun i =>
-          let g := (got[i]?).getD "none"
-          g == "none" || ((specs[i]?).map (·.result)) == some g
+        let ownFails : List String := match fk with
+          | some (k, _) => judgeFault specs order got k
+          | none =>
+            if ((List.range n).all fun i =>
+              let g := (got[i]?).getD "none"
+              g == "none" || ((specs[i]?).map (·.result)) == some g) then [] else ["own_reply"]
         let wireOk : Bool := decide (order.length ≤ (specs.filter (·.writes)).length) &&
           order.all fun tg => specs.any fun s => s.writes && s.tag == tg
-        let fails := (if atomicOk && wireOk then [] else ["atomic"]) ++ (if ownOk then [] else ["own_reply"]) ++
+        let fails := (if atomicOk && wireOk then [] else ["atomic"]) ++ ownFails ++
           (if doneOk then [] else ["all_complete"])
         if fails.isEmpty then "spec-ok" else "spec-fail " ++ String.intercalate "," fails
     | _, _, _, _ => "bad-observation"
@@ -244,7 +305,7 @@ def run (toks : List String) : String :=
     | some sp => judgeStress sp obs
     | none =>
       match kvOf scen "calls" with
-      | some cs => judgeSched ep ack (cs.splitOn ",") obs
+      | some cs => judgeSched ep ack (cs.splitOn ",") obs (kvOf scen "fault")
       | none => "bad-scenario"
 
 end SpecDrv.Locks
